@@ -848,7 +848,7 @@ def _unregister_update_loops():
         heap.LOOPSPEC.pop(k, None)
 
 
-@harness('SimulatedBroker.update', props=['C04', 'C02', 'C01', 'C15', 'C07', 'C18'], layer='L2', functions=BR_FUNCS)
+@harness('SimulatedBroker.update', props=['C04', 'C02', 'C01', 'C15', 'C07', 'C18'], also=['C09', 'C08'], layer='L2', functions=BR_FUNCS)
 def br_update(c):
     """update(dt): marks every holding at mid(dt); exchange closed -> nothing else changes; exchange open -> every pending
        order of every portfolio is filled exactly once, in full, the batch ordered sells-first / submission order, queues
@@ -890,7 +890,7 @@ def br_update(c):
     c.ob('open/all-queues-drained', IMPLIES(z3.Select(pre['pdom'], P0), W.pending(p0) == NOSEQ), props=['C04'])
     c.ob('open/other-ids-have-no-queue-effect', IMPLIES(z3.Not(z3.Select(pre['pdom'], P0)), W.pending(p0) == W.pending(p0, pre)), kind='A')
     c.ob('open/fills-of-a-portfolio-are-its-pending-orders-sells-first-in-submission-order',
-         IMPLIES(z3.Select(pre['pdom'], P0), PROJ(G.exec, P0) == SP(z3.Select(pre['Q'], P0))), props=['C04', 'C18', 'C01'])
+         IMPLIES(z3.Select(pre['pdom'], P0), PROJ(G.exec, P0) == SP(z3.Select(pre['Q'], P0))), props=['C04', 'C18', 'C01', 'C09', 'C08'])
     i, j = c.fresh('wi', z3.IntSort()), c.fresh('wj', z3.IntSort())
     so = [x for x in [G] if True]
     c.ob('open/no-buy-executed-before-a-sell-in-one-update',
@@ -954,7 +954,7 @@ def br_update_conc(c):
          all(EQ(W.price_(p, a), mid(a)) for p in pre['pf'] for a in pre['pf'][p]['pos'] if (p, a) not in filled and W.held_(p, a)), props=['C02'])
     c.ob('open/all-queues-drained', all(W.pending_empty(p) for p in pre['pf']), props=['C04'])
     c.ob('open/fills-of-a-portfolio-are-its-pending-orders-sells-first-in-submission-order',
-         all([(a, q) for (pp, a, q) in fills if pp == p] == _stable_partition(pend[p]) for p in pre['pf']), props=['C04', 'C18', 'C01'])
+         all([(a, q) for (pp, a, q) in fills if pp == p] == _stable_partition(pend[p]) for p in pre['pf']), props=['C04', 'C18', 'C01', 'C09', 'C08'])
     qs = [q for (_, _, q) in fills]
     c.ob('open/no-buy-executed-before-a-sell-in-one-update', all(not (qs[i] > 0 and qs[j] < 0) for i in range(len(qs)) for j in range(i + 1, len(qs))), props=['C04'])
     c.ob('open/each-batched-order-filled-exactly-once', len(fills) == sum(len(v) for v in pend.values()), props=['C04', 'C01'])
